@@ -21,6 +21,8 @@ def units(tier):
         if not f & 0x80:
             us.append(Unit(TF.TFRoundTrip, {'flags': f}))
     us += [Unit(D.DRDateNewAfterZoneChange), Unit(D.VDDateNewAfterZoneChange)]
+    # instants whose local year does not have four digits cannot be recorded: refused (K72)
+    us += [Unit(D.VDDateNewYearOutOfRange, {'t': t}) for t in (253402300800 + 86400 * 2, 10 ** 12, -30610224000 - 86400 * 2)]
     return us
 
 
